@@ -158,6 +158,34 @@ fn run<G: Group>(sc: &Scenario, st: &mut RunStats) -> Vec<Violation> {
             }
         }
     }
+    // the proof survives its own codec: decode(encode(p)) is accepted exactly like p
+    if cfg.full_length() >= 2 {
+        st.evals += 1;
+        let bytes = G::to_bytes(&proof);
+        match G::from_bytes(&bytes) {
+            Ok(q) => {
+                let r = verify_one::<G>(&sc.ctx, &built.statement, &q, tari_bulletproofs_plus::range_proof::VerifyAction::RecoverAndVerify);
+                let r0 = verify_one::<G>(&sc.ctx, &built.statement, &proof, tari_bulletproofs_plus::range_proof::VerifyAction::RecoverAndVerify);
+                st.probe("byte_round_trip_verified");
+                if render_verify(&r) != render_verify(&r0) || G::to_bytes(&q) != bytes {
+                    out.push(Violation::new(
+                        "honest_proof_rejected_after_byte_round_trip",
+                        key.clone(),
+                        format!("cfg={:?}: from_bytes(to_bytes(proof)) verifies as {} but the proof itself as {}", cfg, render_verify(&r), render_verify(&r0)),
+                    ));
+                    return out;
+                }
+            },
+            Err(e) => {
+                out.push(Violation::new(
+                    "honest_proof_rejected_after_byte_round_trip",
+                    key.clone(),
+                    format!("cfg={:?}: the decoder refuses the prover's own output: {:?}", cfg, e),
+                ));
+                return out;
+            },
+        }
+    }
     // inside a batch of unrelated valid members
     if !sc.batch_others.is_empty() {
         let mut sts = Vec::new();
@@ -380,7 +408,7 @@ impl Check for C01 {
             "capacity_gt_m", "m_ge_8", "zero_round_proof", "bits_64", "seed_present", "promise_eq_value",
             "value_max", "value_zero", "ext_1", "ext_2", "ext_3", "ext_4", "ext_5", "ext_6", "bits_1", "bits_2",
             "bits_4", "bits_8", "bits_16", "bits_32", "rng_all_zero", "rng_all_ones", "rng_constant_byte",
-            "rng_short_period", "rng_counter", "rng_stuck_after", "rng_replay", "rng_zero_block_at", "rng_repeat_block_at", "batch_context",
+            "rng_short_period", "rng_counter", "rng_stuck_after", "rng_replay", "rng_zero_block_at", "rng_repeat_block_at", "batch_context", "byte_round_trip_verified",
         ];
         if tier == Tier::Thorough {
             v.push("bits_64");
